@@ -28,6 +28,10 @@ run_directed = directed.run
 
 
 def cases(tier, rng):
+    for c in directed.functions_from_one_definition_cases():
+        yield "directed-functions-from-one-definition", c
+    for c in directed.late_decoration_of_inheriting_accessor_cases():
+        yield "directed-late-decoration-of-inheriting-accessor", c
     thorough = tier == "thorough"
     for c in directed.property_inherited_into_class_with_invariants_cases():
         yield "directed-property-inherited-into-class-with-invariants", c
